@@ -273,3 +273,46 @@ func harnessC05PanicAfterCancel() {
 	}
 	vCover("panicked-after-cancel")
 }
+
+//verif:entry property=C05 tier=both bounds="a handler subscribed through SubscribeWithReplay (plain Handler[T]) that panics on a live event (and, symbolically, also on the replayed one), an ordinary handler behind it; the panic handler is told once per panic, with the event, the panic value and the type of the handler the user subscribed; the subscription keeps working" cover="replay-subscriber-panicked"
+func harnessC05ReplaySubscriberPanics() {
+	type rec struct {
+		ev  any
+		ht  reflect.Type
+		val any
+	}
+	var reps []rec
+	st := NewMemoryStore()
+	bus := New(WithStore(st), WithPanicHandler(func(ev any, ht reflect.Type, v any) { reps = append(reps, rec{ev, ht, v}) }))
+	pre := vBool()
+	if pre {
+		Publish(bus, evA{N: 1}) // replayed by the subscription below
+	}
+	runs, others := 0, 0
+	user := func(e evA) {
+		runs++
+		if e.N >= 2 {
+			panic(7)
+		}
+	}
+	vAssert(SubscribeWithReplay(context.Background(), bus, "c05-sub", user) == nil, "subscribe-ok")
+	Subscribe(bus, func(e evA) { others++ })
+	want := 0
+	if pre {
+		want = 1
+	}
+	vAssert(runs == want, "every-handler-still-runs-exactly-once")
+	for p := 0; p < 2; p++ {
+		Publish(bus, evA{N: 2 + p})
+		want++
+		vAssert(runs == want && others == p+1, "every-handler-still-runs-exactly-once")
+		vAssert(len(reps) == p+1, "panic-handler-once-per-panic")
+		r := reps[p]
+		e, ok := r.ev.(evA)
+		vAssert(ok && e.N == 2+p, "panic-handler-gets-event")
+		vAssert(r.ht == reflect.TypeOf(Handler[evA](user)), "panic-handler-gets-handler-type")
+		pv, ok2 := r.val.(int)
+		vAssert(ok2 && pv == 7, "panic-handler-gets-panic-value")
+	}
+	vCover("replay-subscriber-panicked")
+}
